@@ -96,14 +96,40 @@ theorem c11_order (ops : Ops Pkg) (nEed nEnv : Nat) (pre mid post : List Pkg) (a
 /-! ## consumer layer: the error of a failing callback carries the messages received so far -/
 
 open Dblib.Consume in
-/-- If `NextPackageUntil` ends with the callback's error, the EED packages attached to it are
-exactly the EED packages consumed before the failing package (preceded by those already
-collected), in arrival order; every package in between was an EED or was accepted by the callback. -/
+/-- the messages in the rest of a response after the package the callback failed on: the EED
+packages up to the response's final DONE -/
+def restMessages (ops : Consume.Ops Pkg) (p : Pkg) (post : List Pkg) : List Pkg :=
+  if ops.isDoneFinal p then [] else (Consume.drainCollect ops post).1
+
+/-- what `drainCollect` collects: exactly the EED packages in front of the first final DONE -/
+theorem drainCollect_spec (ops : Consume.Ops Pkg) (A : List Pkg) (f : Pkg) (R : List Pkg)
+    (hf : ops.isDoneFinal f = true) (hfe : ops.isEED f = false)
+    (hA : ∀ a ∈ A, ops.isEED a = true ∨ ops.isDoneFinal a = false) :
+    Consume.drainCollect ops (A ++ f :: R) = (A.filter ops.isEED, R) := by
+  induction A with
+  | nil => simp [Consume.drainCollect, hf, hfe]
+  | cons a A ih =>
+    have ih' := ih (fun x hx => hA x (by simp [hx]))
+    simp only [List.cons_append, Consume.drainCollect]
+    by_cases he : ops.isEED a = true
+    · simp [he, ih']
+    · have hd : ops.isDoneFinal a = false := by
+        rcases hA a (by simp) with h | h
+        · exact absurd h he
+        · exact h
+      simp only [Bool.not_eq_true] at he
+      simp [he, hd, ih']
+
+/-- **When the callback fails, the error carries every message of the response received by the
+call, in order**: the EED packages seen before the failing package, then those in the rest of the
+response, which the call consumes up to the final DONE (none if the failing package is the final
+DONE itself). `cbErr e` is rendered as an `EEDError` wrapping the callback's error iff `e ≠ []`
+(`errors.Is` with the callback's error holds either way — checked on the real code by the harness). -/
 theorem c11_error_carries_messages (ops : Consume.Ops Pkg) (cb : Pkg → Consume.Cb) :
     ∀ (q eeds e q' : List Pkg), Consume.untilCb ops cb q eeds = (.cbErr e, q') →
       ∃ pre p post, q = pre ++ p :: post ∧ cb p = .fail ∧ ops.isEED p = false
         ∧ (∀ x ∈ pre, ops.isEED x = true ∨ cb x = .cont)
-        ∧ e = eeds ++ pre.filter ops.isEED := by
+        ∧ e = eeds ++ pre.filter ops.isEED ++ restMessages ops p post := by
   intro q
   induction q with
   | nil => intro eeds e q' h; simp [Consume.untilCb] at h
@@ -128,7 +154,10 @@ theorem c11_error_carries_messages (ops : Consume.Ops Pkg) (cb : Pkg → Consume
         simp only [hc] at h
         injection h with h1 h2
         injection h1 with h1
-        exact ⟨[], x, q, rfl, hc, hx, by simp, by simp [h1]⟩
+        refine ⟨[], x, q, rfl, hc, hx, by simp, ?_⟩
+        rw [← h1]
+        simp only [List.filter_nil, List.append_nil, restMessages]
+        split <;> rfl
       | cont =>
         simp only [hc] at h
         obtain ⟨pre, p, post, h1, h2, h3, h4, h5⟩ := ih _ _ _ h
